@@ -142,12 +142,12 @@ class AWorld:
     impl = 'async'
 
     def __init__(self, config=None, coroutine_handlers=True, app_kwargs=None, raise_after_close=True,
-                 legacy_disconnect=False):
+                 legacy_disconnect=False, clock=None, loop=None):
         import engineio
-        self.clock = vclock.reset()
+        self.clock = clock or vclock.reset()
         vclock.patch_engineio_time()
         self.rand = patch_secrets()
-        self.loop = VLoop(self.clock)
+        self.loop = loop or VLoop(self.clock)
         cfg = dict(config or {})
         cfg.setdefault('logger', SilentLogger())
         self.config = cfg
